@@ -10,6 +10,21 @@ def bpeTrainD (op : String) (args : List Nat) : Option String :=
       | some (n, words, t) =>
         if greedyTable words n t then (if wfTable t then "accept" else "refuse not-well-formed") else "refuse not-greedy"
       | none => reject
+  | "trainsteps" => some <| match runP (do
+        let n ← pNat; let words ← pList (pPair pNats pNat)
+        let pStats : P StatsObs := pList (do let a ← pNats; let b ← pNats; let f ← pNat; let ws ← pList (pPair pNat pNat); pure ((a, b), f, ws))
+        let init ← pStats
+        let steps ← pList (do let a ← pNats; let b ← pNats; let st ← pStats; let vocab ← pList (pList pNats); pure ((a, b), st, vocab))
+        pure (n, words, init, steps)) args with
+      | some (n, words, init, steps) =>
+        let c := initCorpus words
+        if !statsExact c init then "refuse initial-statistics"
+        else match stepsReplay c steps 0 with
+          | some (k, why) => s!"refuse step {k} " ++ (if why == 1 then "pair-not-maximal" else if why == 2 then "vocabulary" else "statistics")
+          | none =>
+            -- the loop stops after n merges or when no pair occurs any more
+            if steps.length == n || maxPairFreq (corpusAfter c (steps.map (·.1))) == 0 then "accept" else "refuse stopped-early"
+      | none => reject
   | _ => none
 
 end Tu.Drive
